@@ -435,7 +435,12 @@ def _eq(a, b):
     if a == b:
         return True
     try:
-        return sp.simplify(a - b) == 0
+        d = sp.expand(a - b)
+        if d == 0:
+            return True
+        if sp.count_ops(d) > 120:
+            return False          # large residue: not an algebraic re-arrangement (avoid sympy's expensive simplify)
+        return sp.simplify(d) == 0
     except Exception:
         return False
 
